@@ -65,9 +65,10 @@ Theorem C02_sparse_exact : forall sp md w' n P,
      (forall r, n - lenN P <= r -> sv_select_zero sp md sv r = Ok None) /\
      (forall r, r < n - lenN P -> exists z, sv_select_zero sp md sv r = Ok (Some z) /\
         z < n /\ vs_get P z = false /\ vs_rank P z + r = z)) /\
-    (* one_iter and the iterators returned by select_iter / predecessor / successor, driven by ANY sequence of
+    (* the bit iterator iter(), one_iter and the iterators returned by select_iter / predecessor / successor, driven by ANY sequence of
        next() (false) and next_back() (true) calls, behave as a double-ended iterator over the reference list *)
-    ((forall pat, it_drive md sv pat (sv_one_iter sv) = Ok (deque_run (vs_ranked P) pat)) /\
+    ((forall pat, (let* s := sv_iter_new md sv in sbi_drive md sv pat s) = Ok (deque_run (vs_bits P n) pat)) /\
+     (forall pat, it_drive md sv pat (sv_one_iter sv) = Ok (deque_run (vs_ranked P) pat)) /\
      (forall r pat, (let* it := sv_select_iter sp md sv r in it_drive md sv pat it) = Ok (deque_run (skipN (vs_ranked P) r) pat)) /\
      (forall v pat, (let* it := sv_predecessor sp md sv v in it_drive md sv pat it) = Ok (deque_run (vs_pred P v) pat)) /\
      (forall v pat, (let* it := sv_successor sp md sv v in it_drive md sv pat it) = Ok (deque_run (vs_succ P v) pat))).
@@ -80,7 +81,7 @@ Print Assumptions C02_sparse_exact.
    bv_select_ok for sv.high and H, low_ok for sv.low and the low parts of P. *)
 Theorem C02_queries_of_representation : forall sp md sv n w P H,
   sv_ok sp md sv n w P H -> sorted_lt P ->
-  present_queries_ok sp md sv n P /\ zero_queries_ok sp md sv n P /\ iter_queries_ok sp md sv P.
+  present_queries_ok sp md sv n P /\ zero_queries_ok sp md sv n P /\ iter_queries_ok sp md sv n P.
 Proof. intros sp md sv n w P H Hok Hs. split; [exact (sv_ok_present _ _ _ _ _ _ _ Hok)|split; [exact (sv_ok_zero _ _ _ _ _ _ _ Hok Hs)|exact (sv_ok_iters _ _ _ _ _ _ _ Hok)]]. Qed.
 Print Assumptions C02_queries_of_representation.
 
